@@ -18,17 +18,32 @@ import (
 	"verifharness/vh"
 )
 
-func runBurst(e *vh.Env, bseed int64, x int, st *stats) {
+// one unforced burst on one executor instance; several of them can run at the same time on independent instances
+type burstRun struct {
+	x      int
+	lanes  int64
+	q      int
+	K, M   int
+	idBase int
+	yield  bool
+	p      *plan
+	s      *sched
+	seed   int64
+}
+
+func prepBurst(bseed int64, x int, big bool, idBase int, K, M int, form0 bool) *burstRun {
 	rnd := rand.New(rand.NewSource(bseed))
 	lanes := int64(1)
 	if x == xMulti {
 		lanes = []int64{1, 2, 7, 509}[rnd.Intn(4)]
 	}
-	K := 4 + rnd.Intn(6)
-	M := 1 + rnd.Intn(3)
-	if e.Thorough || e.Search {
-		K = 6 + rnd.Intn(12)
-		M = 1 + rnd.Intn(4)
+	if K == 0 {
+		K = 4 + rnd.Intn(6)
+		M = 1 + rnd.Intn(3)
+		if big {
+			K = 6 + rnd.Intn(12)
+			M = 1 + rnd.Intn(4)
+		}
 	}
 	total := K * M
 	q := 0
@@ -41,7 +56,11 @@ func runBurst(e *vh.Env, bseed int64, x int, st *stats) {
 		pool = pickHashPool(rnd, lanes)
 	}
 	for i := 1; i <= total; i++ {
-		p.Calls = append(p.Calls, pcall{ID: i, Hash: pool[rnd.Intn(len(pool))], Fail: rnd.Intn(5) == 0, Form: rnd.Intn(3)})
+		form := rnd.Intn(3)
+		if form0 && rnd.Intn(8) != 0 {
+			form = 0
+		}
+		p.Calls = append(p.Calls, pcall{ID: idBase + i, Hash: pool[rnd.Intn(len(pool))], Fail: rnd.Intn(5) == 0, Form: form})
 	}
 	s := newSched(p)
 	// callees do not block
@@ -49,31 +68,34 @@ func runBurst(e *vh.Env, bseed int64, x int, st *stats) {
 		s.gopen[c] = true
 		close(g)
 	}
-	yield := rnd.Intn(2) == 0
+	b := &burstRun{x: x, lanes: lanes, q: q, K: K, M: M, idBase: idBase, yield: rnd.Intn(2) == 0, p: p, s: s, seed: bseed}
+	// Line / MultiLine run a call whose context is done; its caller may get either answer.  (For the runners the moment
+	// the worker passes over such a call cannot be seen without a forced schedule: none here.)
+	if x == xLine || x == xMulti {
+		for i := 1; i <= total; i++ {
+			if rnd.Intn(6) == 0 {
+				s.items = append(s.items, obs{stamp: s.stamp(), kind: oCancel, c: idBase + i})
+				s.ctxs[idBase+i].cancel()
+			}
+		}
+	}
+	return b
+}
+
+// run the burst (callers leave when startCh is closed), Stop, wait for the lane goroutines, build the case
+func (b *burstRun) run(startCh chan struct{}, cls string, extra map[string]interface{}) (vh.Case, bool) {
+	s, x, K, M := b.s, b.x, b.K, b.M
 	body := func(id int) bodyFn {
 		inner := s.body(id)
 		return func(lane int, param int) (int, error) {
-			if yield {
+			if b.yield {
 				runtime.Gosched()
 			}
 			return inner(lane, param)
 		}
 	}
-	// Line / MultiLine run a call whose context is done; its caller may get either answer.  (For the runners the moment
-	// the worker passes over such a call cannot be seen without a forced schedule: none here.)
-	pre := map[int]bool{}
-	if x == xLine || x == xMulti {
-		for i := 1; i <= total; i++ {
-			if rnd.Intn(6) == 0 {
-				pre[i] = true
-				s.items = append(s.items, obs{stamp: s.stamp(), kind: oCancel, c: i})
-				s.ctxs[i].cancel()
-			}
-		}
-	}
 	s.ex.Run()
 	s.m.started = true
-	startCh := make(chan struct{})
 	var wg sync.WaitGroup
 	for k := 0; k < K; k++ {
 		wg.Add(1)
@@ -81,7 +103,7 @@ func runBurst(e *vh.Env, bseed int64, x int, st *stats) {
 			defer wg.Done()
 			<-startCh
 			for j := 0; j < M; j++ {
-				c := k*M + j + 1
+				c := b.idBase + k*M + j + 1
 				pc := s.calls[c]
 				res := &result{}
 				func() {
@@ -96,7 +118,6 @@ func runBurst(e *vh.Env, bseed int64, x int, st *stats) {
 			}
 		}(k)
 	}
-	close(startCh)
 	allBack := make(chan struct{})
 	go func() { wg.Wait(); close(allBack) }()
 	hung := false
@@ -135,20 +156,22 @@ func runBurst(e *vh.Env, bseed int64, x int, st *stats) {
 		emit(fmt.Sprintf("ICancel %d%%nat", it.c), fmt.Sprintf("cancel ctx of %d (before the burst)", it.c))
 	}
 	// resolved: enqueue order = order in which the callees were entered; calls that never ran but were accepted go last
-	subbed := map[int]bool{}
+	subbed := map[int]int{}
 	accepted := 0
 	sub := func(c int, out int) {
-		if subbed[c] {
+		if _, ok := subbed[c]; ok {
 			return
 		}
-		subbed[c] = true
+		subbed[c] = out
 		emit(fmt.Sprintf("ISub %d%%nat %s", c, sNames[out]), fmt.Sprintf("submit %d -> %s (position resolved by the harness)", c, sNames[out]))
 		if out == sAcc {
 			accepted++
 		}
 	}
+	starts := map[int]int{}
 	for _, o := range ev {
 		if o.kind == oStart {
+			starts[o.c]++
 			sub(o.c, sAcc)
 		}
 	}
@@ -171,6 +194,8 @@ func runBurst(e *vh.Env, bseed int64, x int, st *stats) {
 		}
 		sub(c, sAcc)
 	}
+	// the Go screen (decides only what is sampled; Coq decides the verdict)
+	flag := hung
 	all := append([]obs{}, ev...)
 	for c, r := range res {
 		if r.pan == nil && r.calls == 0 {
@@ -184,7 +209,35 @@ func runBurst(e *vh.Env, bseed int64, x int, st *stats) {
 		} else {
 			o.ak, o.an = classify(r.r, r.err)
 		}
+		if o.ak == aWeird || o.ak == aFull || (o.ak == aClosed && x != xProc) || (o.ak == aVal && o.an/2 != c) || (o.ak == aCtx && o.an != c) {
+			flag = true
+		}
 		all = append(all, o)
+	}
+	for c, out := range subbed {
+		if (out == sAcc && starts[c] != 1 && x != xProc) || starts[c] > 1 || (out != sAcc && starts[c] > 0) {
+			flag = true
+		}
+	}
+	for c, n := range starts {
+		if _, ok := subbed[c]; !ok || n > 1 {
+			flag = true
+		}
+	}
+	open := map[int64]int{}
+	for _, o := range ev {
+		switch o.kind {
+		case oStart:
+			if open[o.lane] != 0 {
+				flag = true
+			}
+			open[o.lane] = o.c
+		case oEnd:
+			if open[o.lane] != o.c {
+				flag = true
+			}
+			open[o.lane] = 0
+		}
 	}
 	all = append(all, obs{stamp: stopStamp, kind: oStop})
 	if ex := atomic.LoadInt64(&s.exitAt); ex != 0 {
@@ -195,33 +248,89 @@ func runBurst(e *vh.Env, bseed int64, x int, st *stats) {
 	}
 	sort.SliceStable(all, func(i, j int) bool { return all[i].stamp < all[j].stamp })
 	s.hung = hung
-	// reuse the printer of the forced schedules for everything but the submits (no Skip can be needed: nothing is cancelled
-	// on a runner here)
-	pm := s
-	pm.items = nil
-	it2, rd2, _ := pm.coqTraceNoSub(all)
+	s.items = nil
+	it2, rd2, _ := s.coqTraceNoSub(all)
 	items = append(items, it2...)
 	readable = append(readable, rd2...)
 	calls := []string{}
-	for _, pc := range p.Calls {
+	for _, pc := range b.p.Calls {
 		calls = append(calls, fmt.Sprintf("(%d%%nat, %s, %s, %s)", pc.ID, coqZ(pc.Hash), vh.CoqBool(pc.Fail), coqZ(int64(s.idx[pc.ID]))))
 	}
+	if x == xMulti {
+		cls += "-n" + strconv.FormatInt(b.lanes, 10)
+	}
+	coq := fmt.Sprintf("CRun %s %s %d%%nat false %s %s", xNames[x], coqZ(b.lanes), b.q, vh.CoqList(calls), vh.CoqList(items))
+	if len(readable) > 70 {
+		tail := readable[len(readable)-10:]
+		readable = append(append(readable[:60], fmt.Sprintf("... %d more ...", len(readable)-70)), tail...)
+	}
+	desc := map[string]interface{}{"executor": xShort[x], "lanes": b.lanes, "queue_size": b.q, "concurrent_callers": K, "calls_per_caller": M,
+		"yield_in_callee": b.yield, "trace": readable, "hang": hung}
+	for k, v := range extra {
+		desc[k] = v
+	}
+	return vh.Case{Coq: coq, Class: cls, Nontrivial: accepted >= 2, Desc: desc}, flag
+}
+
+func runBurst(e *vh.Env, bseed int64, x int, st *stats) {
+	b := prepBurst(bseed, x, e.Thorough || e.Search, 0, 0, 0, false)
+	startCh := make(chan struct{})
+	close(startCh)
+	c, _ := b.run(startCh, "burst-"+xShort[x], nil)
+	c.Replay = fmt.Sprintf("burst:%d:%d", x, bseed)
 	st.cases++
-	if hung {
+	if b.s.hung {
 		st.hangs++
 	}
-	cls := "burst-" + xShort[x]
-	if x == xMulti {
-		cls += "-n" + strconv.FormatInt(lanes, 10)
+	e.Emit(c)
+}
+
+// Several independent instances of one executor kind, each driven by its own callers, all at the same time.  Instances
+// share nothing by contract, so every clause holds per instance under every schedule; the call ids of the instances are
+// disjoint, so a parameter, a result or an execution that leaks from one instance into another is visible in the other's
+// case as a value / a call that is not its own.
+func runInstances(e *vh.Env, iseed int64, x int, st *stats, flagged *int, sample bool) {
+	rnd := rand.New(rand.NewSource(iseed))
+	n := 2 + rnd.Intn(3)
+	K := 4 + rnd.Intn(5)
+	M := 4 + rnd.Intn(8)
+	if e.Thorough || e.Search {
+		M = 6 + rnd.Intn(12)
 	}
-	coq := fmt.Sprintf("CRun %s %s %d%%nat false %s %s", xNames[x], coqZ(lanes), q, vh.CoqList(calls), vh.CoqList(items))
-	if len(readable) > 60 {
-		readable = append(readable[:60], fmt.Sprintf("... %d more", len(readable)-60))
+	bs := make([]*burstRun, n)
+	for i := range bs {
+		bs[i] = prepBurst(rnd.Int63(), x, false, i*K*M, K, M, true)
 	}
-	e.Emit(vh.Case{Coq: coq, Class: cls, Nontrivial: accepted >= 2,
-		Desc: map[string]interface{}{"executor": xShort[x], "lanes": lanes, "queue_size": q, "concurrent_callers": K, "calls_per_caller": M,
-			"yield_in_callee": yield, "trace": readable, "hang": hung},
-		Replay: fmt.Sprintf("burst:%d:%d", x, bseed)})
+	startCh := make(chan struct{})
+	cases := make([]vh.Case, n)
+	flags := make([]bool, n)
+	var wg sync.WaitGroup
+	for i := range bs {
+		wg.Add(1)
+		go func(i int) {
+			defer wg.Done()
+			cases[i], flags[i] = bs[i].run(startCh, "instances-"+xShort[x], map[string]interface{}{"instance": i, "instances_running_concurrently": n,
+				"call_ids_of_this_instance": fmt.Sprintf("%d..%d", i*K*M+1, (i+1)*K*M)})
+		}(i)
+	}
+	close(startCh)
+	wg.Wait()
+	for i := range bs {
+		st.cases++
+		if bs[i].s.hung {
+			st.hangs++
+		}
+		cases[i].Replay = fmt.Sprintf("instances:%d:%d", x, iseed)
+		if flags[i] {
+			*flagged++
+			if *flagged > 12 {
+				continue
+			}
+			e.Emit(cases[i])
+		} else if sample && i == 0 {
+			e.Emit(cases[i])
+		}
+	}
 }
 
 // coqTraceNoSub prints a stamp-ordered list of facts that contains no submits (burst mode): the lane bookkeeping needed
